@@ -215,7 +215,16 @@ int main(int argc, char** argv) {
 }
 '''
 
-def native_sources(h, d, obls):
+def native_sources(h, d, obls, all_obls=None):
+    """generated-C main covers the selected obligations; the native (real) main covers every obligation of the harness file
+    (known-finding witnesses are replayed natively even when their obligation belongs to another tier)"""
+    subs = []
+    for lst in (obls, all_obls or obls):
+        subs.append(_native_tables(lst))
+    open(os.path.join(d, 'native_main.cpp'), 'w').write(NATIVE_MAIN % subs[1])
+    open(os.path.join(d, 'gen_main.c'), 'w').write(GEN_MAIN_C % subs[0])
+
+def _native_tables(obls):
     decls, ents = [], []
     seen = set()
     for o in obls:
@@ -225,9 +234,7 @@ def native_sources(h, d, obls):
                 seen.add(f)
                 decls.append('int %s(const uint8_t*%s);' % (f, ', uint8_t*' if k == 'prop' else ''))
         ents.append('  {"%s", %s, %s, %s, %d, %d},' % (o['name'], o['prop'], o.get('assume') or '0', o.get('known') or '0', o['in'], o['out']))
-    sub = {'decls': '\n'.join(decls), 'ents': '\n'.join(ents)}
-    open(os.path.join(d, 'native_main.cpp'), 'w').write(NATIVE_MAIN % sub)
-    open(os.path.join(d, 'gen_main.c'), 'w').write(GEN_MAIN_C % sub)
+    return {'decls': '\n'.join(decls), 'ents': '\n'.join(ents)}
 
 def build_native(h, d, sanitize=True):
     """native build of the real harness (g++); returns path"""
@@ -490,7 +497,7 @@ def check(prop, tier, only=None, keep=False, seed=0):
             t0 = time.time()
             build_ir(h, d)
             fl = translate(h, d, obls)
-            native_sources(h, d, obls)
+            native_sources(h, d, obls, h['obls'])
             for o in obls:
                 o['_modeldef'] = h.get('modeldef', [])
                 kc = sorted({f['class'] for f in findings if f.get('obligation') in (o['name'], o.get('family')) and f['status'] == 'known'})
@@ -524,7 +531,7 @@ def check(prop, tier, only=None, keep=False, seed=0):
         for f in findings:
             if f['status'] != 'known': continue
             for (h, obls), (d, fl) in zip(hs, prepared):
-                for o in obls:
+                for o in h['obls']:
                     if f.get('witness_obligation', f.get('obligation')) in (o['name'], o.get('family')) and f.get('witness'):
                         res = run_native_each(os.path.join(d, 'native_real'), ['%s %s' % (o['name'], f['witness'])])
                         if res and (' r=1 ' not in res[0] + ' '):
